@@ -10,14 +10,16 @@
 (*                 (-1: not claimed for this record, see harness domain rule)            *)
 EXTENDS LLUDPFrame, Integers, Json, IOUtils, TLCExt
 TraceLog == ndJsonDeserialize(IOEnv.TRACE_FILE)
-VARIABLES l, tid
+VARIABLES l, tid,
+          sref, dref   \* instance state: calls the trace's serializer / deserializer instance has refused so far
 Rec == TraceLog[l]
 Fail(name) == PrintT(ToJson([fail |-> name, line |-> l, tid |-> tid, eid |-> Rec.eid]))
 Chk(name, cond) == IF cond THEN TRUE ELSE Fail(name)
 Env(name, cond) == Assert(cond, <<"driver violated environment assumption", name, l>>)
 IsEvent(e) == l <= Len(TraceLog) /\ TraceLog[l].ev = e /\ l' = l + 1
-TInit == l = 1 /\ tid = -1
-TReset == l <= Len(TraceLog) /\ TraceLog[l].ev = "Reset" /\ l' = l + 1 /\ tid' = Rec.tid
+TInit == l = 1 /\ tid = -1 /\ sref = 0 /\ dref = 0
+\* a Reset also stands for fresh instances
+TReset == l <= Len(TraceLog) /\ TraceLog[l].ev = "Reset" /\ l' = l + 1 /\ tid' = Rec.tid /\ sref' = 0 /\ dref' = 0
 
 \* a value the decoder handed out denotes a payload; a "str" stands for its bytes plus the terminator
 \* Named causes (suffix of every clause of the record, so that a known finding matches exactly its case):
@@ -35,7 +37,7 @@ Cause(T, m) ==
 SameShape(a, b) == /\ Len(a) = Len(b)
                    /\ \A k \in 1..Len(a) : /\ Len(a[k]) = Len(b[k])
                                             /\ \A i \in 1..Len(a[k]) : Len(a[k][i]) = Len(b[k][i])
-TRT == /\ IsEvent("RT") /\ UNCHANGED tid
+TRT == /\ IsEvent("RT") /\ UNCHANGED <<tid, sref, dref>>
        /\ LET T == Rec.T
               m == Rec.m
               c == Cause(T, m)
@@ -55,7 +57,36 @@ TRT == /\ IsEvent("RT") /\ UNCHANGED tid
                             /\ PayBlocks(T, Rec.dec.blocks) = PayBlocks(T, m.blocks))
                      /\ Chk("RT.python-eq" \o c, Rec.eq # 0)
                 ELSE TRUE
-TNext == TReset \/ TRT
-TraceSpec == TInit /\ [][TNext]_<<l, tid>>
+\* ---- instances with history (LLUDPFrameInst): one serializer and one deserializer object per trace.
+\* {"ev":"Ser","eid","inst","T","m","fill":0|1,"res","d"}  a message expressible in the value language
+\* {"ev":"Bad","eid","inst","cls","res"}                    a message that is not (unknown block / message ...)
+\* {"ev":"Des","eid","inst","T","d","res","flags","pid","extra","acks","blocks"}
+\* The law is stated without reference to the history: the datagram of a conformant message is Datagram(T, m),
+\* a parseable datagram decodes to Parse(T, d).  The history only names the case: [after-refused-call].
+After(n) == IF n > 0 THEN "[after-refused-call]" ELSE ""
+TSer == /\ IsEvent("Ser") /\ UNCHANGED <<tid, dref>>
+        /\ Env("template", WellFormedTemplate(Rec.T))
+        /\ sref' = IF Rec.res = "raise" THEN sref + 1 ELSE sref
+        /\ IF Conformant(Rec.T, Rec.m) /\ (Rec.fill = 1 \/ ~HasUnset(Rec.m))
+           THEN /\ Chk("Ser.refuses-conformant" \o After(sref), Rec.res = "ok")
+                /\ Chk("Ser.datagram" \o After(sref), Rec.res = "ok" => Rec.d = Datagram(Rec.T, Rec.m))
+           ELSE TRUE      \* outside the template language: refusing it (or not) is an observation
+TBad == /\ IsEvent("Bad") /\ UNCHANGED <<tid, dref>>
+        /\ sref' = IF Rec.res = "raise" THEN sref + 1 ELSE sref
+TDes == /\ IsEvent("Des") /\ UNCHANGED <<tid, sref>>
+        /\ Env("template", WellFormedTemplate(Rec.T))
+        /\ dref' = IF Rec.res = "raise" THEN dref + 1 ELSE dref
+        /\ IF HeaderFor(Rec.T, Rec.d) /\ Parse(Rec.T, Rec.d).status = "ok"
+           THEN LET p == Parse(Rec.T, Rec.d)
+                IN /\ Chk("Des.refuses-parseable" \o After(dref), Rec.res = "ok")
+                   /\ IF Rec.res = "ok"
+                      THEN /\ Chk("Des.header" \o After(dref), /\ Rec.flags = p.hd.flags /\ Rec.pid = p.hd.pid
+                                                             /\ Rec.extra = p.extra /\ Rec.acks = p.hd.acks)
+                           /\ Chk("Des.values" \o After(dref), /\ SameShape(Rec.blocks, p.blocks)
+                                                             /\ PayBlocks(Rec.T, Rec.blocks) = p.blocks)
+                      ELSE TRUE
+           ELSE TRUE
+TNext == TReset \/ TRT \/ TSer \/ TBad \/ TDes
+TraceSpec == TInit /\ [][TNext]_<<l, tid, sref, dref>>
 TraceAccepted == PrintT("TRACE_REACHED " \o ToString(TLCGet("stats").diameter - 1) \o " OF " \o ToString(Len(TraceLog)))
 =============================================================================
